@@ -28,14 +28,15 @@ theorem C08_registries_consistent (ops : List Op) : Inv (run init ops).1 :=
     (of any supported kind) arrives, the owning layer's callback runs once and then the application's
     callback of the matching type runs once, with that request; afterwards nobody knows the id. -/
 theorem C08_reply_reaches_callback_once (pre post : List Op) (k : Kind) (hk : k ∈ Yow.Gen.iqKinds) (a b r : Bool)
-    (hpost : ∀ op ∈ post, ∀ r', op ≠ .deliver ((run init pre).1.next + 1) r') :
+    (hpost : ∀ op ∈ post, ∀ r', op ≠ .deliver ((run init pre).1.next + 1) r')
+    (hre : ∀ op ∈ post, ∀ k' a' b', op ≠ .reReq ((run init pre).1.next + 1) k' a' b') :
     let id := (run init pre).1.next + 1
     let s := (run (step (run init pre).1 (.appReq k a b)).1 post).1
     (step s (.deliver id r)).2 =
       [.layerCb k.owner id r, if (if r then a else b) then .appCb id r else .swallowed id] ∧
     (∀ e ∈ (step s (.deliver id r)).1.layerReg, e.id ≠ id) ∧
     (∀ e ∈ (step s (.deliver id r)).1.appReg, e.id ≠ id) :=
-  app_request_reply pre post k (C08_all_kinds_complete k hk) a b r hpost
+  app_request_reply pre post k (C08_all_kinds_complete k hk) a b r hpost hre
 
 /-- Replies with unknown ids and replayed replies invoke no callback and are handled as ordinary stanzas. -/
 theorem C08_unknown_or_replayed_calls_nothing (s : St) (id : Nat) (r r' : Bool) :
@@ -47,11 +48,22 @@ theorem C08_unknown_or_replayed_calls_nothing (s : St) (id : Nat) (r r' : Bool) 
 /-- Requests issued by the library's own layers: the layer's callback runs once and the reply entity
     reaches the application. -/
 theorem C08_library_request_reply (pre post : List Op) (k : Kind) (hk : k ∈ Yow.Gen.iqKinds) (r : Bool)
-    (hpost : ∀ op ∈ post, ∀ r', op ≠ .deliver ((run init pre).1.next + 1) r') :
+    (hpost : ∀ op ∈ post, ∀ r', op ≠ .deliver ((run init pre).1.next + 1) r')
+    (hre : ∀ op ∈ post, ∀ k' a' b', op ≠ .reReq ((run init pre).1.next + 1) k' a' b') :
     let id := (run init pre).1.next + 1
     let s := (run (step (run init pre).1 (.libReq k)).1 post).1
     (step s (.deliver id r)).2 = [.layerCb k.owner id r, .appEntity id] :=
-  lib_request_reply pre post k (C08_all_kinds_complete k hk) r hpost
+  lib_request_reply pre post k (C08_all_kinds_complete k hk) r hpost hre
+
+/-- A retry under the old id — re-issued after, or from inside the callback of, its reply (the registry entry
+    is removed BEFORE the callback is dispatched) — is registered again and answered like the first time. -/
+theorem C08_retry_from_callback (ops : List Op) (id : Nat) (hid : id ≤ (run init ops).1.next)
+    (hl : ∀ e ∈ (run init ops).1.layerReg, e.id ≠ id) (ha : ∀ e ∈ (run init ops).1.appReg, e.id ≠ id)
+    (k : Kind) (hk : k ∈ Yow.Gen.iqKinds) (a b r : Bool) :
+    (step (run init ops).1 (.reReq id k a b)).2 = [.sent id] ∧
+    (step (step (run init ops).1 (.reReq id k a b)).1 (.deliver id r)).2 =
+      [.layerCb k.owner id r, if (if r then a else b) then .appCb id r else .swallowed id] :=
+  retry_same_id_reply _ (inv_run init inv_init ops) id hid hl ha k (C08_all_kinds_complete k hk) a b r
 
 /-- Why both callbacks must be registered (the pinned tree's defect as a model witness): with a kind
     that registers no error callback, an error reply to an application request is swallowed. -/
